@@ -175,8 +175,9 @@ impl Property for P {
             any::<u64>(),
             suffix_strat(),
             any::<bool>(),
+            prop::option::weighted(0.4, any::<bool>()),
         )
-            .prop_map(|(out, mode, nam, size, threads, per_thread, lens, noise_seed, suffix, via_logger)| {
+            .prop_map(|(out, mode, nam, size, threads, per_thread, lens, noise_seed, suffix, via_logger, cleanup)| {
                 let nam = match nam {
                     // size criterion is documented as unsupported without current infix
                     Nam::Custom { current, fmt } if current.as_deref().is_none_or(str::is_empty) => Nam::Custom { current: Some("cur".into()), fmt },
@@ -200,12 +201,15 @@ impl Property for P {
                         discr: None,
                         suffix,
                         start_ts: false,
-                        rot: Some(Rot { crit: Crit::Size(size), nam, cln: Cln::Never }),
+                        // a cleanup strategy whose limit is never reached: the cleanup (and, if
+                        // chosen, its background thread) runs with every rotation, concurrently
+                        // with the logging threads, but must not remove anything
+                        rot: Some(Rot { crit: Crit::Size(size), nam, cln: if cleanup.is_some() { Cln::Keep(100_000) } else { Cln::Never } }),
                         mode,
                         crlf: false,
                         utc: false,
                         symlink: false,
-                        bg_cleanup: false,
+                        bg_cleanup: cleanup == Some(true),
                         via_logger,
                     },
                     threads,
@@ -225,6 +229,9 @@ impl Property for P {
         match case.out {
             Out::File => {
                 out.class("out:file");
+                if case.cfg.rot.as_ref().is_some_and(|r| r.cln != Cln::Never) {
+                    out.class(if case.cfg.bg_cleanup { "cleanup-thread-active" } else { "cleanup-in-logging-thread" });
+                }
                 out.class(case.cfg.nam().map_or("nam:none", |n| n.label()));
                 let dir = sc.sub("logs");
                 h().set_time(Some(VInst::default_inst().to_ns()));
